@@ -31,11 +31,23 @@ Definition lift0 (st : lstate) (r : res lstate) : lstate * res unit :=
 Definition when_closed (st : lstate) (r : res lstate) : lstate * res unit :=
   match opened st with None => lift0 st r | Some _ => (st, Err ELocked) end.
 
+(* Publish as a step of the handle.  log.Publish rolls the writing segment over, when that is due, BEFORE
+   writer.Publish validates the batch: a batch refused with ErrTooBig leaves the new empty head behind - the state a
+   Publish of no message at all produces - and nothing else *)
+Definition rolled (st : lstate) : lstate :=
+  match log_publish H st [] with Ok (st', _) => st' | Err _ => st end.
+
+Definition pub_step (st : lstate) (ms : list msg) : lstate * res Z :=
+  match log_publish H st ms with
+  | Ok (st', n) => (st', Ok n)
+  | Err e => (match e with ETooBig => rolled st | _ => st end, Err e)
+  end.
+
 Definition hstep (st : lstate) (op : hop) : lstate * hout :=
   match op with
   | HOpen c => let (s, r) := lift0 st (log_open H st c) in (s, RUnit r)
   | HClose => let (s, r) := lift0 st (log_close st) in (s, RUnit r)
-  | HPub ms => let (s, r) := lift st (log_publish H st ms) in (s, RNum r)
+  | HPub ms => let (s, r) := pub_step st ms in (s, RNum r)
   | HDel offs => let (s, r) := lift st (log_delete H st offs) in (s, RDel r)
   | HCons off max => let (s, r) := lift st (log_consume H st off max) in (s, RCons r)
   | HGet off => let (s, r) := lift st (log_get H st off) in (s, RMsg r)
@@ -90,6 +102,25 @@ Qed.
 
 Ltac closed_err := intros Ho; unfold get_cfg; rewrite Ho; eexists; reflexivity.
 
+Lemma spec_publish_nil a : spec_publish a [] = a.
+Proof. unfold spec_publish. cbn. rewrite app_nil_r, Z.add_0_r. destruct a; reflexivity. Qed.
+
+Lemma publish_ok_good st ms st' n :
+  Good st -> log_publish H st ms = Ok (st', n) -> Good st' /\ abs st' = spec_publish (abs st) ms.
+Proof.
+  intros HG E. destruct HG as [(Ho & Hv & HD)|[HI|HV]].
+  + unfold log_publish, get_cfg in E. rewrite Ho in E. discriminate.
+  + pose proof HI as (_ & _ & _ & _ & c & Hc & _).
+    destruct (cro c) eqn:Ero; [unfold log_publish, get_cfg in E; rewrite Hc in E; cbn [bind] in E; rewrite Ero in E; discriminate|].
+    destruct (existsb msg_too_big ms) eqn:Ebig.
+    * unfold log_publish, get_cfg in E. rewrite Hc in E. cbn [bind] in E. rewrite Ero in E.
+      destruct (head_seg st) as [hs|]; [|discriminate]. cbn [bind] in E.
+      destruct (needs_rollover c hs); rewrite Ebig in E; discriminate.
+    * destruct (log_publish_correct H st ms HI (ex_intro _ c (conj Hc Ero)) Ebig) as (st2 & E2 & I2 & A2 & _).
+      rewrite E in E2. injection E2 as <- _. split; [right; left; assumption|assumption].
+  + destruct HV as (_ & _ & c & Hc & Hro). unfold log_publish, get_cfg in E. rewrite Hc in E. cbn [bind] in E. rewrite Hro in E. discriminate.
+Qed.
+
 Theorem hstep_good st op :
   Good st -> Good (fst (hstep st op)) /\ abs (fst (hstep st op)) = spec_step (abs st) op (snd (hstep st op)).
 Proof.
@@ -119,18 +150,11 @@ Proof.
       split; [left; split; [reflexivity|split; [reflexivity|split; [constructor|exact I]]]|].
       unfold abs, wnext, all_recs. rewrite Es. reflexivity.
   - (* Publish *)
-    destruct (log_publish H st ms) as [[st' n]|e] eqn:E; cbn [lift fst snd spec_step]; [|split; [assumption|reflexivity]].
-    destruct HG as [(Ho & Hv & HD)|[HI|HV]].
-    + unfold log_publish, get_cfg in E. rewrite Ho in E. discriminate.
-    + pose proof HI as (_ & _ & _ & _ & c & Hc & _).
-      destruct (cro c) eqn:Ero; [unfold log_publish, get_cfg in E; rewrite Hc in E; cbn [bind] in E; rewrite Ero in E; discriminate|].
-      destruct (existsb msg_too_big ms) eqn:Ebig.
-      * unfold log_publish, get_cfg in E. rewrite Hc in E. cbn [bind] in E. rewrite Ero in E.
-        destruct (head_seg st) as [hs|]; [|discriminate]. cbn [bind] in E.
-        destruct (needs_rollover c hs); rewrite Ebig in E; discriminate.
-      * destruct (log_publish_correct H st ms HI (ex_intro _ c (conj Hc Ero)) Ebig) as (st2 & E2 & I2 & A2 & _).
-        rewrite E in E2. injection E2 as <- _. split; [right; left; assumption|assumption].
-    + destruct HV as (_ & _ & c & Hc & Hro). unfold log_publish, get_cfg in E. rewrite Hc in E. cbn [bind] in E. rewrite Hro in E. discriminate.
+    unfold pub_step. destruct (log_publish H st ms) as [[st' n]|e] eqn:E; cbn [fst snd spec_step].
+    + exact (publish_ok_good st ms st' n HG E).
+    + destruct e; try (split; [assumption|reflexivity]).
+      unfold rolled. destruct (log_publish H st []) as [[st0 n0]|e0] eqn:E0; [|split; [assumption|reflexivity]].
+      destruct (publish_ok_good st [] st0 n0 HG E0) as [G0 A0]. split; [exact G0|]. rewrite A0. apply spec_publish_nil.
   - (* Delete *)
     destruct (log_delete H st offs) as [[st' [deleted size]]|e] eqn:E; cbn [lift fst snd spec_step]; [|split; [assumption|reflexivity]].
     destruct HG as [(Ho & Hv & HD)|[HI|HV]].
@@ -190,6 +214,15 @@ Proof.
       split; [left; split; [congruence|split; [congruence|assumption]]|]. exact A2.
     + destruct HI as (_ & _ & _ & _ & c & Hc & _). congruence.
     + destruct HV as (_ & _ & c & Hc & _). congruence.
+Qed.
+
+(* a Publish that fails - whatever the reason, a refused oversized batch after a rollover included - publishes
+   nothing: the live messages and NextOffset are what they were *)
+Corollary failed_publish_publishes_nothing st ms e :
+  Good st -> snd (hstep st (HPub ms)) = RNum (Err e) ->
+  Good (fst (hstep st (HPub ms))) /\ abs (fst (hstep st (HPub ms))) = abs st.
+Proof.
+  intros HG He. destruct (hstep_good st (HPub ms) HG) as [G A]. split; [exact G|]. rewrite A, He. reflexivity.
 Qed.
 
 (* ---------- whole histories *)
